@@ -29,7 +29,7 @@ sh(["git", "-C", "/repo", "worktree", "add", "-q", "--detach", wt, "HEAD"])
 try:
     r = sh(["git", "-C", wt, "apply", os.path.join(dest, "patch.diff")])
     log["applies"] = r.returncode == 0
-    r = sh(["bash", os.path.join(dest, "run.sh"), base], cwd=dest, timeout=1200)
+    r = sh(["bash", os.path.join(dest, "run.sh"), base], cwd=dest, timeout=1200, env=dict(os.environ, CHIBI_SRC="/repo"))
     log["demo_unchanged_exit"] = r.returncode
     sh(["cmake", "-G", "Ninja", "-S", wt, "-B", bd])
     r = sh(["ninja", "-C", bd]); log["builds"] = r.returncode == 0
@@ -37,7 +37,7 @@ try:
     tail = r.stdout.decode(errors="replace")[-400:]
     log["ctest"] = "100% tests passed" in tail
     log["ctest_tail"] = tail.strip().splitlines()[-4:]
-    r = sh(["bash", os.path.join(dest, "run.sh"), bd], cwd=dest, timeout=1200)
+    r = sh(["bash", os.path.join(dest, "run.sh"), bd], cwd=dest, timeout=1200, env=dict(os.environ, CHIBI_SRC=wt))
     log["demo_changed_exit"] = r.returncode
     log["confirmed"] = bool(log["applies"] and log["builds"] and log["ctest"] and log["demo_unchanged_exit"] == 0 and log["demo_changed_exit"] != 0)
     checks = {}
